@@ -128,3 +128,50 @@ def _(self, data: Map('str', Val), encoder: Obj("Encoder")) -> Bool:
     loop(0, invariant=[presence_bits >= 0, presence_bits < pow2(_i0), _i0 <= len(self.additions)],
          use=[pow2_mono(_i0 + 1, len(self.additions))])
     loop(1, invariant=[encoder.number_of_bits >= 0])
+
+
+fields("Choice", name_to_root_member=Map('str', Obj("Type")), name_to_addition=Map('str', Obj("Type")),
+       tag_to_root_member=Map('bytes', Obj("Type")), tag_to_addition=Map('bytes', Obj("Type")), has_extension_marker=Bool)
+formatting("Choice.format_tags", "Choice.format_names", "Enumerated.format_names", "Enumerated.format_values")
+
+
+@contract("Choice.encode", props=["C06", "C12", "C01"])
+def _(self, data: Tup(Str, Val), encoder: Obj("Encoder")):
+    # X.696 20: tag octets of the alternative, then its encoding; an extension alternative is length prefixed.
+    # An unknown alternative is an encode error; an error inside the alternative is located at it (C12)
+    requires(implies(data[0] in self.name_to_root_member, self.name_to_root_member[data[0]].tag is not None))
+    requires(implies(data[0] in self.name_to_addition, self.name_to_addition[data[0]].tag is not None))
+    raises(EncodeError, ensures=[implies(data[0] in self.name_to_root_member,
+                                         located_at(exc, self.name_to_root_member[data[0]])),
+                                 implies(data[0] not in self.name_to_root_member and data[0] in self.name_to_addition,
+                                         located_at(exc, self.name_to_addition[data[0]]) or len(exc.location) == 0)])
+    raises(OverflowError)
+    raises(UnicodeEncodeError)
+    assigns(encoder)
+    ensures(data[0] in self.name_to_root_member or data[0] in self.name_to_addition)
+    ensures(encoder.number_of_bits >= old(encoder.number_of_bits))
+
+
+@contract("Choice.decode", props=["C06", "C07", "C16", "C08", "C01"])
+def _(self, decoder: Obj("Decoder")):
+    refines("Type.decode")
+    # C07: an alternative this version does not know is skipped by exactly its length prefix and reported as (None, None)
+    ensures(decoder.number_of_bits < old(decoder.number_of_bits))
+
+
+@contract("Enumerated.encode", props=["C06", "C12", "C01"])
+def _(self, data: Val, encoder: Obj("Encoder")):
+    # X.696 11: values 0..127 in one octet; otherwise the long form (length octet with the top bit set + two's complement)
+    requires(implies(data in self.data_to_value, -pow2(1000) < self.data_to_value[data] and self.data_to_value[data] < pow2(1000)))
+    raises_iff(EncodeError, data not in self.data_to_value, ensures=[len(exc.location) == 0])
+    assigns(encoder)
+    ensures(implies(0 <= self.data_to_value[data] and self.data_to_value[data] <= 127,
+                    encoder.number_of_bits == old(encoder.number_of_bits) + 8
+                    and encoder.value == 256 * old(encoder.value) + self.data_to_value[data]))
+    ensures(encoder.number_of_bits >= old(encoder.number_of_bits) + 8)
+
+
+@contract("Enumerated.decode", props=["C06", "C07", "C16", "C08", "C01"])
+def _(self, decoder: Obj("Decoder")):
+    refines("Type.decode")
+    ensures(decoder.number_of_bits < old(decoder.number_of_bits))
